@@ -10,6 +10,7 @@ package main
 
 import (
 	"fmt"
+	"go/constant"
 	"go/token"
 	"go/types"
 	"os"
@@ -526,6 +527,48 @@ func funcValFuncs(vs []funcVal_) []*ssa.Function {
 	return out
 }
 
+// funcMapKeyConst, when set (by a specialised effects analysis while it resolves a call), gives the constant a map
+// key has under the bindings of that analysis.
+var funcMapKeyConst func(v ssa.Value) constant.Value
+
+// localMapFuncVals: the functions a lookup in a map the function builds itself from a literal (make + one update
+// per constant key, never handed on) can yield: the entry of the looked-up key when that is a known constant (none
+// when no entry has it), else any entry.
+func localMapFuncVals(c *Ctx, lk *ssa.Lookup, live func(phi *ssa.Phi, i int) bool, depth int) []funcVal_ {
+	mm, ok := lk.X.(*ssa.MakeMap)
+	if !ok || mm.Referrers() == nil {
+		return nil
+	}
+	var key constant.Value
+	if funcMapKeyConst != nil {
+		key = funcMapKeyConst(lk.Index)
+	} else if k, isK := lk.Index.(*ssa.Const); isK {
+		key = k.Value
+	}
+	out := []funcVal_{}
+	for _, ref := range *mm.Referrers() {
+		switch y := ref.(type) {
+		case *ssa.MapUpdate:
+			kc, isK := y.Key.(*ssa.Const)
+			if y.Map != ssa.Value(mm) || !isK || kc.Value == nil {
+				return nil
+			}
+			if key != nil && !constant.Compare(key, token.EQL, kc.Value) {
+				continue
+			}
+			t := funcValsLive(c, y.Value, live, depth+1)
+			if t == nil {
+				return nil
+			}
+			out = append(out, t...)
+		case *ssa.Lookup, *ssa.DebugRef:
+		default:
+			return nil // ranged over, passed on, returned
+		}
+	}
+	return out
+}
+
 func funcTargets(c *Ctx, v ssa.Value, depth int) []*ssa.Function {
 	return funcTargetsLive(c, v, nil, depth)
 }
@@ -566,6 +609,15 @@ func funcValsLive(c *Ctx, v ssa.Value, live func(phi *ssa.Phi, i int) bool, dept
 			out = append(out, t...)
 		}
 		return out
+	case *ssa.Extract:
+		// the value half of `f, ok := m[k]` on a local map literal of functions
+		if lk, ok := x.Tuple.(*ssa.Lookup); ok && lk.CommaOk && x.Index == 0 {
+			return localMapFuncVals(c, lk, live, depth)
+		}
+	case *ssa.Lookup:
+		if !x.CommaOk {
+			return localMapFuncVals(c, x, live, depth)
+		}
 	case *ssa.Index:
 		// an element of an array of functions: any of the functions the array can hold
 		return funcElemVals(c, x.X, live, depth+1)
